@@ -115,7 +115,7 @@ func (e *env) pruneOp(ctx sdk.Context, clientID string, all bool) string {
 // famStore: store-level histories on a client store with crafted (revision, height) pairs whose big-endian
 // encodings contain 0x2f, 0x00 and 0xff bytes: iteration order, neighbour lookup, pruning.
 func famStore(r *hx.Rng, o *sink, e *env) {
-	n := hx.N(60, 2500)
+	n := hx.N(36, 700)
 	for hi := 0; hi < n; hi++ {
 		ctx := e.branch()
 		clientID := "07-tendermint-900"
@@ -169,7 +169,7 @@ func famStore(r *hx.Rng, o *sink, e *env) {
 			ibctm.VerifSetClientState(store, e.cdc, cs)
 			emit(opIn{Op: "setclient", Client: projClient(cs)[1:]}, "ok")
 		}
-		steps := 12 + r.Intn(25)
+		steps := 12 + r.Intn(20)
 		for len(ops) < steps {
 			if r.Chance(1, 4) {
 				now += int64(r.Intn(400)) * sec
